@@ -1,11 +1,14 @@
 """C15 - every queued job's future completes once, with that job's own result.
 
-D1 every picked-up job publishes a status (must-pass-through on worker_loop),
+D1 every picked-up job publishes a status (must-pass-through on worker_loop); the failure paths (exception
+   handlers of the job body) may themselves raise at every call that is not a logger call, a total builtin,
+   the building of the status context or the publish - a failure path that fails publishes nothing,
 D2 the master resolves each pending future exactly once with a failure path whose
    marker agrees with what the worker writes,
 D3 register-before-publish in enqueue,
 D4 correlation keys / channel templates agree between master and worker, and the
-   per-job values come from this job's message,
+   per-job values come from this job's message; the job-id annotation of the published context is the last
+   write of that key on every path to the status publish,
 D5 the transport's hand-over rules (C14) re-applied,
 D6 the scan the master/worker message loops drive cannot be killed by a concurrent publisher.
 
@@ -136,16 +139,64 @@ def is_status_publish(call: ast.Call, job_var: Optional[str] = None, fn: Optiona
     return job_var is None or names[0] == job_var
 
 
-def job_may_raise(repo: Repo, mod, fn: ast.AST, scope: ast.AST):
+TOTAL_CALLS = {"isinstance", "all", "any", "str", "type", "bool", "len", "repr", "traceback.format_exc", "time.time", "time.monotonic", "time.perf_counter"}
+
+
+def _publish_context(call: ast.Call) -> Optional[ast.AST]:
+    return kwarg(call, "context") or (call.args[2] if len(call.args) > 2 else None)
+
+
+def status_context_calls(repo: Repo, mod, fn: ast.AST) -> Set[int]:
+    """ids of the calls of *fn* that build the context a status publish carries, found by role: the
+    construction of a repo class bound to the local handed over as `context=` of a jobs.<id>.status publish, and
+    `set_value` on that local.  Together with the publish they are the least a failure path has to do."""
+    ctx_names: Set[str] = set()
+    for c in calls_in(fn):
+        if is_status_publish(c, fn=fn):
+            ctx = _publish_context(c)
+            if isinstance(ctx, ast.Name):
+                ctx_names.add(ctx.id)
+    out: Set[int] = set()
+    for c in calls_in(fn):
+        if call_attr(c) == "set_value" and isinstance(c.func, ast.Attribute) and isinstance(c.func.value, ast.Name) and c.func.value.id in ctx_names:
+            out.add(id(c))
+    for nm in ctx_names:
+        for v in assigned_value(fn, nm):
+            if isinstance(v, ast.Call) and isinstance(v.func, ast.Name):  # arguments that are calls are judged on their own
+                r = repo.resolve_name(mod, v.func, v)
+                if r is not None and isinstance(r[1], ast.ClassDef):
+                    out.add(id(v))
+    return out
+
+
+def handler_statement_ids(scope: ast.AST) -> Set[int]:
+    return {id(x) for h in ast.walk(scope) if isinstance(h, ast.ExceptHandler) for st in h.body for x in ast.walk(st)}
+
+
+def job_may_raise(repo: Repo, mod, fn: ast.AST, scope: ast.AST, whole: bool = False, summarise: bool = True):
     """may_raise model of D1 for *fn*: logger calls (receiver is a logger by role), dict.get on a message's
-    metadata, a few total builtins and the statements of the exception handlers inside *scope* do not raise
-    (assumptions recorded by run()); any other call and every `raise` raises the Exception class."""
+    metadata and a few total builtins do not raise (assumptions recorded by run()); any other call and every
+    `raise` raises the Exception class.  Inside the exception handlers of *scope* (the failure paths; with
+    *whole*, everywhere in *fn*) three more kinds of call are taken not to raise, because nothing could be
+    decided otherwise: the status publish itself, the calls that build the context it carries
+    (status_context_calls) and a helper summarised as "cannot be left before it has published".  Every other
+    call in a handler may raise like anywhere else: a failure path that fails before its publish leaves the
+    job without a status."""
     loggers = logger_receivers(repo, mod, fn)
-    handler_stmts = {id(x) for h in ast.walk(scope) if isinstance(h, ast.ExceptHandler) for st in h.body for x in ast.walk(st)}
+    handler_stmts = handler_statement_ids(scope)
+    ctx_calls = status_context_calls(repo, mod, fn)
+    summaries: Dict[int, bool] = {}
+
+    def sealed_helper(c: ast.Call) -> bool:
+        if not summarise:
+            return False
+        if id(c) not in summaries:
+            h = helper_always_publishes(repo, mod, c)
+            summaries[id(c)] = h is not None and not h[3]
+        return summaries[id(c)]
 
     def may_raise(part: ast.AST) -> Set[str]:
-        if id(part) in handler_stmts and not isinstance(part, ast.Raise):
-            return set()  # assumption: the failure handlers themselves do not raise before publishing
+        lenient = whole or id(part) in handler_stmts
         for n in walk_no_nested(part):
             if isinstance(n, (ast.Raise,)):
                 return {EXC}
@@ -153,7 +204,9 @@ def job_may_raise(repo: Repo, mod, fn: ast.AST, scope: ast.AST):
                 d = call_name(n) or ""
                 if isinstance(n.func, ast.Attribute) and n.func.attr in LOG_METHODS and dotted_name(n.func.value) in loggers:
                     continue
-                if d in ("isinstance", "all", "any", "str", "type", "bool", "len") or (d.endswith(".metadata.get") and d.count(".") == 2):
+                if d in TOTAL_CALLS or (d.endswith(".metadata.get") and d.count(".") == 2):
+                    continue
+                if lenient and (id(n) in ctx_calls or is_status_publish(n, fn=fn) or sealed_helper(n)):
                     continue
                 return {EXC}
         return set()
@@ -161,11 +214,14 @@ def job_may_raise(repo: Repo, mod, fn: ast.AST, scope: ast.AST):
     return may_raise
 
 
-def helper_always_publishes(repo: Repo, mod, call: ast.Call) -> Optional[Tuple[ast.FunctionDef, int, bool]]:
+def helper_always_publishes(repo: Repo, mod, call: ast.Call) -> Optional[Tuple[ast.FunctionDef, int, bool, bool]]:
     """Summary of a helper the normaliser did not inline (public, too large, returns inside try): if *call*
     resolves to one repo function none of whose normally-returning paths avoids a status publish for the job
-    id it receives as a parameter, return (function, index of that parameter, can_raise_unpublished) - the
-    last item tells whether an exception can leave the helper before any status was published."""
+    id it receives as a parameter, return (function, index of that parameter, can_raise_unpublished,
+    can_raise_before_publish).  can_raise_unpublished: an exception can leave the helper before any status was
+    published, a failing publish included (what matters in the job body, whose handler publishes the failure);
+    can_raise_before_publish: the same with the publish itself and the building of its context taken not to
+    raise (what matters when the helper *is* the failure path)."""
     targets = repo.resolve_call(mod, call)
     if len(targets) != 1:
         return None
@@ -185,12 +241,15 @@ def helper_always_publishes(repo: Repo, mod, call: ast.Call) -> Optional[Tuple[a
     jp = t[1][0]
     if jp not in params or any(isinstance(n, ast.Name) and n.id == jp and isinstance(n.ctx, ast.Store) for n in walk_no_nested(fn)):
         return None
-    g = CFG(fn, may_raise=job_may_raise(repo, tm, fn, fn))
+    g = CFG(fn, may_raise=job_may_raise(repo, tm, fn, fn, summarise=False))
     pub = {n.id for n in g.nodes if n.ast is not None and n.kind == "stmt" and any(is_status_publish(c, jp, fn) for c in calls_in(n.ast))}
     seen, _path = reach_with_flags(g, [g.entry], pub, set(), _flag_names(fn), {BASE})
     if g.ret_exit in seen:
         return None
-    return fn, params.index(jp), g.exc_exit in seen
+    g2 = CFG(fn, may_raise=job_may_raise(repo, tm, fn, fn, whole=True, summarise=False))
+    pub2 = {n.id for n in g2.nodes if n.ast is not None and n.kind == "stmt" and any(is_status_publish(c, jp, fn) for c in calls_in(n.ast))}
+    seen2, _path2 = reach_with_flags(g2, [g2.entry], pub2, set(), _flag_names(fn), {BASE})
+    return fn, params.index(jp), g.exc_exit in seen, g2.exc_exit in seen2
 
 
 def metadata_keys(call: ast.Call, fn: Optional[ast.AST] = None) -> Optional[Dict[str, ast.AST]]:
@@ -295,6 +354,17 @@ def reach_with_flags(g: CFG, starts: List[int], blocked: Set[int], sealed: Set[i
             cur = prev[0] if prev else None
         return list(reversed(out))
 
+    def steps_to(target: int) -> List[Tuple[int, str]]:
+        """The same path as [(node id, label of the edge that led to it)]."""
+        out: List[Tuple[int, str]] = []
+        cur: Optional[Tuple[int, tuple]] = first.get(target)
+        while cur is not None and len(out) < 10000:
+            prev = seen.get(cur)
+            out.append((cur[0], prev[1] if prev else ""))
+            cur = prev[0] if prev else None
+        return list(reversed(out))
+
+    path_to.steps = steps_to  # type: ignore[attr-defined]
     return first, path_to
 
 
@@ -355,7 +425,7 @@ def run(repo: Repo, R: Report) -> None:
                 return "publish"
             h = helper_always_publishes(repo, wmod, c)
             if h is not None:
-                fn, idx, raises_unpublished = h
+                fn, idx, raises_unpublished, _before = h
                 a = c.args[idx] if idx < len(c.args) else kwarg(c, fn.args.args[idx].arg)
                 if isinstance(a, ast.Name) and a.id == job_var:
                     return "publish" if raises_unpublished else "sealed"
@@ -369,6 +439,7 @@ def run(repo: Repo, R: Report) -> None:
     sealed_nodes = {i for i, k in kinds.items() if k == "sealed"}
     n_pub_nodes = len(pub_nodes)
     flags = _flag_names(wl)
+    in_handler = handler_statement_ids(loop)
     total_bad = 0
     for h in heads:
         starts = [t for t, lab in g.succ[h] if lab == "T"]
@@ -377,8 +448,18 @@ def run(repo: Repo, R: Report) -> None:
             if target in seen:
                 total_bad += 1
                 path = path_to(target)
-                R.violation(r_pub, W, "worker_loop", f"job body -> {label} without status publish via `{_last_stmt(path)}`",
-                            "a picked-up job can leave its iteration without any jobs.<id>.status message: the caller's Future never completes", loop.lineno, path)
+                # a statement of a failure handler that raised on this path: the failure path itself failed
+                steps = path_to.steps(target)
+                failed = [g.nodes[steps[i - 1][0]] for i in range(1, len(steps)) if steps[i][1] == EXC and g.nodes[steps[i - 1][0]].ast is not None
+                          and (id(g.nodes[steps[i - 1][0]].ast) in in_handler or id(g.nodes[steps[i - 1][0]].part) in in_handler)]
+                if failed:
+                    R.violation(r_pub, W, "worker_loop", f"job body -> {label} without status publish: failure path raises at `{norm(failed[-1].part if failed[-1].part is not None else failed[-1].ast)[:90]}`",
+                                "a statement on the failure path (exception handler of the job body, helpers inlined) can itself raise before the failure status is published "
+                                "(only logger calls, total builtins, building the status context and the publish are taken not to raise): the exception leaves the handler, "
+                                "no jobs.<id>.status message is sent and the failing job's Future never completes", failed[-1].line or loop.lineno, path)
+                else:
+                    R.violation(r_pub, W, "worker_loop", f"job body -> {label} without status publish via `{_last_stmt(path)}`",
+                                "a picked-up job can leave its iteration without any jobs.<id>.status message: the caller's Future never completes", loop.lineno, path)
     if total_bad == 0:
         R.ok(r_pub, W, "worker_loop", f"{n_pub_nodes} publishing statement(s) cover all exits of the job body", "", loop.lineno)
     if n_pub_nodes == 0:
@@ -593,6 +674,8 @@ def run(repo: Repo, R: Report) -> None:
                 writes = [w for w in calls_in(fn) if call_attr(w) == "set_value" and isinstance(w.func, ast.Attribute) and dotted_name(w.func.value) == cname and w.args and isinstance(w.args[0], ast.Constant) and w.args[0].value == ctx_key and len(w.args) > 1 and dotted_name(w.args[1]) == jv]
                 R.check(bool(writes), r_corr, W, qualname_of(fn), norm(c)[:70] + f" [context[{ctx_key!r}]]",
                         f"a status message is published whose context does not carry this job's id under {ctx_key!r}: the master cannot find the pending future", c.lineno)
+                if writes and cname:
+                    _annotation_reaches_publish(R, r_corr, fn, c, cname, ctx_key, jv, writes)
     # payload of the job is built from this message
     def from_this_message(e: ast.AST, depth: int = 0) -> bool:
         """*e* reads this message (directly or through locals) and, besides it, only fresh objects built on the
@@ -822,6 +905,56 @@ def scan_rule(repo: Repo, R: Report, rf: ast.AST, wl: ast.AST) -> None:
                         "for ... in " + norm(base)[:100],
                         "the scan walks the live channel map shared with publishers: a publish on a new channel from another thread raises RuntimeError (dictionary changed size during iteration) inside `for msg in sub`" + consequence,
                         getattr(base, "lineno", 0))
+
+
+def _annotation_reaches_publish(R: Report, rule, fn: ast.AST, pub: ast.Call, cname: str, ctx_key, jv: Optional[str], writes: List[ast.Call]) -> None:
+    """D4, last hop on the worker side: the master finds the pending Future only through context[<ctx_key>] of the
+    status message, and the context of a finished job is whatever the pipeline left in it (a chained job or a
+    re-used session context already carries an older job's id).  So on *every* path to the status publish the
+    last thing that happened to that key of the published context must be `set_value(<ctx_key>, <this job id>)`:
+    the write may not be skipped by a branch, and between it and the publish the context local may not be
+    rebound, nor the key be written with another value or deleted."""
+    g = CFG(fn)  # every call may raise: handlers are reachable
+    root = cname.split(".")[0]
+
+    def holds(node, calls) -> bool:
+        return node.ast is not None and node.kind == "stmt" and any(x is c for c in calls for x in ast.walk(node.ast))
+
+    good = {n.id for n in g.nodes if holds(n, writes)}
+    pub_nodes = [n.id for n in g.nodes if holds(n, [pub])]
+
+    def kills(node) -> bool:
+        if node.ast is None or node.id in good:
+            return False
+        parts = [node.part] if node.part is not None and node.kind != "stmt" else [node.ast]
+        if node.kind == "for" and isinstance(node.ast, ast.For):
+            parts = [node.ast.target]
+        if node.kind == "with" and isinstance(node.ast, ast.With):
+            parts = [it.optional_vars for it in node.ast.items if it.optional_vars is not None]
+        if node.kind == "except":
+            h = node.ast if isinstance(node.ast, ast.ExceptHandler) else None
+            return h is not None and h.name == root
+        if node.kind not in ("stmt", "for", "with"):
+            return False
+        for part in parts:
+            for x in walk_no_nested(part):
+                if isinstance(x, ast.Name) and x.id == root and isinstance(x.ctx, (ast.Store, ast.Del)):
+                    return True
+                if isinstance(x, ast.Call) and isinstance(x.func, ast.Attribute) and dotted_name(x.func.value) == cname:
+                    if x.func.attr == "set_value" and x.args and isinstance(x.args[0], ast.Constant) and x.args[0].value == ctx_key:
+                        return True  # the key is written with something that is not this job's id
+                    if x.func.attr in ("delete_value", "pop", "clear") and (not x.args or (isinstance(x.args[0], ast.Constant) and x.args[0].value == ctx_key)):
+                        return True
+        return False
+
+    starts = [g.entry] + [n.id for n in g.nodes if kills(n)]
+    seen = g.reach(starts, blocked=good, skip_labels={BASE})
+    bad = [p for p in pub_nodes if p in seen]
+    what = (f"a path reaches the status publish on which context[{ctx_key!r}] was not (or not last) set to this job's id `{jv}` - the annotation is skipped by a branch, "
+            f"overwritten, or the context is rebound after it; the published context then carries whatever the pipeline / an earlier job left under {ctx_key!r} "
+            "(a chained job's input context already has one): the master looks up a foreign id, drops the status or completes another job's Future")
+    R.check(not bad, rule, W, qualname_of(fn), norm(writes[0])[:70] + " [on every path to the publish]", what, writes[0].lineno,
+            g.path_to(seen, bad[0]) if bad else None)
 
 
 def _free_names(expr: ast.AST, msg: str) -> Set[str]:
